@@ -33,7 +33,7 @@ META = dict(
 
 SIZES = dict(json=[1, 3], wfn=[2], wfx=[2], molden=[2], molekel=[2], fchk=[2], xyz=[1, 3, 1000], pdb=[1, 3, 1000, 12000], mol2=[1, 3, 1000], sdf=[1, 3, 100, 999], poscar=[1, 3, 12],
              cube=[1, 2], fcidump=[1, 2])
-VARIANTS = dict(json=["full", "bare"], wfn=["full", "bare", "uhf", "unsorted"], wfx=["full", "bare", "uhf", "ecp", "unsorted"], molden=["full", "bare", "uhf", "ecp", "unsorted"], molekel=["full", "bare", "uhf", "unsorted"], fchk=["wf-own", "wf-horton2", "wf-revflip", "uhf", "rohf", "post", "corenums", "bare", "geom", "nomo", "lotblank"], xyz=["default", "columns"], pdb=["default", "full", "bonds", "star"], mol2=["default", "full", "bonds"],
+VARIANTS = dict(json=["full", "bare"], wfn=["full", "bare", "uhf", "unsorted"], wfx=["full", "bare", "uhf", "ecp", "unsorted"], molden=["full", "bare", "uhf", "ecp", "unsorted", "dpfc", "dcfp"], molekel=["full", "bare", "uhf", "unsorted"], fchk=["wf-own", "wf-horton2", "wf-revflip", "uhf", "rohf", "post", "corenums", "bare", "geom", "nomo", "lotblank"], xyz=["default", "columns"], pdb=["default", "full", "bonds", "star"], mol2=["default", "full", "bonds"],
                 sdf=["default", "bonds"], poscar=["lower"], cube=["111", "234", "117", "234F", "234T"], fcidump=["sym"])
 
 
